@@ -126,18 +126,32 @@ def programs(tier: str):
     for sig, (_, forms) in SIGS.items():
         for fi in range(len(forms)):
             for kind in ("function", "method"):
-                for outcome in ("value", "raise", "raise_base"):
+                for outcome in ("value", "raise", "raise_base", "awaitable"):
                     for executor in ("default", "explicit"):
+                        if outcome == "awaitable" and (executor == "explicit" or kind == "method"):
+                            continue
                         if outcome == "raise_base" and executor == "explicit":
                             continue
                         for cctx in ("none", "scope", "scope+updated"):
                             yield {"family": "asynchronous", "sig": sig, "form": fi, "kind": kind, "outcome": outcome, "executor": executor, "ctx": cctx}
             for inp in ("sync", "async"):
-                for outcome in ("value", "raise", "raise_base"):
+                for outcome in ("value", "raise", "raise_base", "awaitable"):
+                    if outcome == "awaitable" and inp == "async":
+                        continue
                     yield {"family": "wrap_async", "sig": sig, "form": fi, "input": inp, "outcome": outcome}
                     ctxs = ("none", "scope") if tier == "quick" else ("none", "scope", "scope+updated", "nested")
                     for cctx in ctxs:
                         yield {"family": "traced", "sig": sig, "form": fi, "input": inp, "outcome": outcome, "ctx": cctx}
+    for pair in (
+        "traced-over-retry",
+        "cache-over-retry",
+        "retry-over-cache",
+        "retry-over-traced",
+        "timeout-over-throttle",
+        "cache-over-functools-wraps",
+        "asynchronous-over-retry",
+    ):
+        yield {"family": "meta", "decorator": "stack:" + pair}
     for deco in ("asynchronous", "asynchronous()", "wrap_async", "traced", "traced-async", "cache", "cache()", "cache-async", "retry", "retry()", "retry-async", "throttle", "throttle()", "timeout", "asynchronous-method", "cache-method"):
         yield {"family": "meta", "decorator": deco}
 
@@ -220,10 +234,19 @@ def execute(program, ch: Chooser) -> Result:  # noqa: C901, PLR0912, PLR0915
         cm = ctx.updated(a9)
         cm.__enter__()
         leak_cms.append(cm)
-        if outcome != "value":
+        if outcome == "awaitable":
+            return awaitable_result  # an awaitable object returned *as a value* by a sync function
+        if outcome not in ("value", "awaitable"):
             raise boom
         return RESULT
 
+    class AwaitableValue:
+        """a result object that happens to be awaitable; awaiting it yields something else"""
+
+        def __await__(self):
+            return iter(())
+
+    awaitable_result = AwaitableValue()
     hb: dict = {"steps": 0}
     got: dict = {}
     completions: dict = {}
@@ -266,8 +289,8 @@ def execute(program, ch: Chooser) -> Result:  # noqa: C901, PLR0912, PLR0915
             before = [_state_token(tags), None]
             try:
                 r = target(*args, **kwargs)
-                if inspect.isawaitable(r):
-                    r = await r
+                if inspect.isawaitable(r) and not (fam == "traced" and program.get("input") == "sync"):
+                    r = await r  # the wrapper's coroutine (a sync traced function returns directly)
                 got["out"] = ("value", r)
             except (Boom, BoomBase) as exc:
                 got["out"] = ("raised", exc)
@@ -320,9 +343,11 @@ def execute(program, ch: Chooser) -> Result:  # noqa: C901, PLR0912, PLR0915
         if out is not None:
             if out[0] == "other":
                 viols.append(viol("transparent", f"foreign-exception/{witness}", "the function's own outcome", out[1]))
+            elif outcome == "awaitable" and not (out[0] == "value" and out[1] is awaitable_result):
+                viols.append(viol("transparent", f"awaitable-result/{witness}", "the same (awaitable) result object", f"{out[0]}: {type(out[1]).__name__}"))
             elif outcome == "value" and not (out[0] == "value" and out[1] is RESULT):
                 viols.append(viol("transparent", f"result/{witness}", "the same result object", out[0]))
-            elif outcome != "value" and not (out[0] == "raised" and out[1] is boom):
+            elif outcome in ("raise", "raise_base") and not (out[0] == "raised" and out[1] is boom):
                 viols.append(viol("transparent", f"exception/{witness}", "the same exception object", out[0]))
             if seen["calls"] != 1:
                 viols.append(viol("transparent", f"calls/{witness}", 1, seen["calls"]))
@@ -355,7 +380,7 @@ def execute(program, ch: Chooser) -> Result:  # noqa: C901, PLR0912, PLR0915
                     want_args = ArgumentsTrace.of(*args, **kwargs)
                     if len(at) != 1 or not (at[0] == want_args):
                         viols.append(viol("traced-arguments", witness, str(want_args), [str(x) for x in at]))
-                    want_res = boom if outcome != "value" else RESULT
+                    want_res = awaitable_result if outcome == "awaitable" else (boom if outcome != "value" else RESULT)
                     if len(rt) != 1 or rt[0].result is not want_res:
                         viols.append(viol("traced-result", witness, "the produced value / exception", [str(x) for x in rt]))
         for cm in leak_cms:
@@ -383,6 +408,42 @@ def _meta(program) -> Result:  # noqa: C901, PLR0912
 
     original = sync_fn
     try:
+        if deco.startswith("stack:"):
+            import functools
+
+            outer_name, inner_name = deco[6:].split("-over-")
+            base = async_fn if outer_name in ("timeout", "throttle") or inner_name in ("timeout", "throttle") else sync_fn
+            if inner_name == "functools-wraps":
+
+                @functools.wraps(base)
+                def inner(*a, **k):
+                    return base(*a, **k)
+
+            else:
+                inner = {
+                    "retry": lambda f: retry(limit=2)(f),
+                    "cache": lambda f: cache(limit=2)(f),
+                    "traced": traced,
+                    "throttle": lambda f: throttle(limit=2)(f),
+                    "timeout": lambda f: timeout(1)(f),
+                }[inner_name](base)
+            wrapped = {
+                "retry": lambda f: retry(limit=2)(f),
+                "cache": lambda f: cache(limit=2)(f),
+                "traced": traced,
+                "throttle": lambda f: throttle(limit=2)(f),
+                "timeout": lambda f: timeout(1)(f),
+                "asynchronous": asynchronous,
+            }[outer_name](inner)
+            original = inner  # the outer decorator must reference what it actually wrapped
+            name = getattr(wrapped, "__name__", None)
+            if name != base.__name__:
+                viols.append(viol("metadata", f"name/{deco}", base.__name__, name))
+            if getattr(wrapped, "__doc__", None) != "Doc.":
+                viols.append(viol("metadata", f"doc/{deco}", "Doc.", getattr(wrapped, "__doc__", None)))
+            if getattr(wrapped, "__wrapped__", None) is not inner:
+                viols.append(viol("metadata", f"wrapped/{deco}", "the function it wrapped (the inner wrapper)", repr(getattr(wrapped, "__wrapped__", None))[:80]))
+            return Result(f"meta/{deco}", True, viols, {"decorator": deco, "name": name}, steps=3)
         if deco == "asynchronous":
             wrapped = asynchronous(sync_fn)
         elif deco == "asynchronous()":
